@@ -308,6 +308,10 @@ func (c05) Run(sc *Scenario) *Verdict {
 			}
 			v.Evals++
 			v.Sigs = append(v.Sigs, fmt.Sprintf("%s;root=%s;target=%s;spell=%s;odd=%v", op.Entry, rf, class, spell, strings.ContainsAny(ptr, "~%?# {}\"\\")))
+			if res.Out.Budget {
+				v.Inconclusive = "a call ran into the generic step budget (termination is C04's business)"
+				continue
+			}
 			if res.Out.Panic != "" {
 				return v.fail("panic", "op %d %s(%q) with %s root: %s\n%s", oi, op.Entry, op.Ref, rf, res.Out.Panic, res.Out.Stack)
 			}
